@@ -63,6 +63,7 @@ class Ctx:
         """run fn(case) -> [events] over items in forked worker processes (fresh objects per case)"""
         items = list(items)
         if not items: return []
+        _t = time.time()
         if procs <= 1 or len(items) < 8:
             out = [_safe_call(fn, it) for it in items]
         else:
@@ -73,6 +74,7 @@ class Ctx:
         for case, evs in zip(items, out):
             for e in evs:
                 self.add_event(e, case); n += 1
+        self.p2_wall = getattr(self, "p2_wall", 0.0) + time.time() - _t
         return n
 
     def add_event(self, e, case):
@@ -95,7 +97,8 @@ class Ctx:
         tlc._copy_specs(d)
         shutil.copy(os.path.join(tlc.SPEC_DIR, "PuanTrace.cfg"), os.path.join(d, "PuanTrace.cfg"))
         # largest events first, round robin: balances shards
-        order = sorted(range(len(events)), key=lambda i: -len(events[i].get("points", events[i].get("table", []))))
+        sizes = [len(json.dumps(e, separators=(",", ":"))) for e in events]
+        order = sorted(range(len(events)), key=lambda i: -sizes[i])
         files = []
         for s in range(shards):
             p = os.path.join(d, "trace_%d.ndjson" % s)
